@@ -382,6 +382,33 @@ let cmd_adl (args : string list) : string =
      | Adl_panic -> "panic" ^ hyp)
   | _ -> "err badcmd"
 
+(* ---------- which blocks of an update are integrated, which are set aside (Crdt/Integrate.v: apply_update, Update::integrate, BlockPicker) ---------- *)
+let itg_stores : (string, itg_store) Hashtbl.t = Hashtbl.create 8
+let itg_print_runs (l : (n * (n * n) list) list) : string =
+  let cs = List.sort compare (List.map (fun (c, rs) -> (String.length (hex_of_n c), hex_of_n c, rs)) (List.filter (fun (_, rs) -> rs <> []) l)) in
+  match cs with [] -> "_" | _ -> String.concat ";" (List.map (fun (_, c, rs) -> c ^ "=" ^ String.concat "," (List.map (fun (a, b) -> hex_of_n a ^ "-" ^ hex_of_n b) rs)) cs)
+let itg_print_sv (l : (n * n) list) : string =
+  let cs = List.sort compare (List.map (fun (c, k) -> (String.length (hex_of_n c), hex_of_n c, hex_of_n k)) l) in
+  match cs with [] -> "_" | _ -> String.concat "," (List.map (fun (_, c, k) -> c ^ ":" ^ k) cs)
+let cmd_itg (args : string list) : string =
+  match args with
+  | ["new"; r] -> Hashtbl.replace itg_stores r itg_empty; "ok"
+  | ["copy"; r; src] -> Hashtbl.replace itg_stores r (try Hashtbl.find itg_stores src with Not_found -> itg_empty); "ok"
+  | ["apply"; r; hx] ->
+    let bs = bytes_of_hex hx in
+    let st = (try Hashtbl.find itg_stores r with Not_found -> itg_empty) in
+    (match decode_update_v1 (fuel_for bs) bs with
+     | Ok (u, _) ->
+       let wf = (if itg_update_wf u.u_blocks then "1" else "0") in
+       (match itg_drive_res st u.u_blocks with
+        | Itg_ok st' -> Hashtbl.replace itg_stores r st';
+          "ok ranges=" ^ itg_print_runs (itg_obs_ranges st') ^ " holes=" ^ itg_print_runs (itg_obs_holes st') ^ " pending=" ^ (if itg_obs_has_pending st' then "1" else "0")
+          ^ " missing=" ^ itg_print_sv (itg_obs_missing st') ^ " wf=" ^ wf
+        | Itg_undef _ -> "undef wf=" ^ wf
+        | Itg_nofuel -> "fuel")
+     | _ -> "err undecodable")
+  | _ -> "err badcmd"
+
 (* ---------- codecs ---------- *)
 let print_idm (v : (n * ((n * n) * ((n list * any) option) list) list) list) : string =
   let pa = function None -> "?" | Some (nm, vl) -> rawhex nm ^ "=" ^ print_any vl in
@@ -696,6 +723,7 @@ let dispatch (line : string) : string =
   | "MRG" :: args -> cmd_mrg args
   | "DFF" :: args -> cmd_dff args
   | "ADL" :: args -> cmd_adl args
+  | "ITG" :: args -> cmd_itg args
   | "DEC" :: args -> cmd_dec args
   | "ENC" :: args -> cmd_enc args
   | ["PING"] -> "ok pong"
